@@ -18,6 +18,9 @@ sys.path.insert(0, ROOT)
 VT = shutil.which("python3-vt") or "/opt/veriftools/pyvenv/bin/python"
 REPO_PY = "/venv/bin/python"
 SRC = os.environ.get("MDPAX_SRC", "/repo/src")
+# evidence/ and replays/ of /verif describe /repo itself; a run against a scratch tree (MDPAX_SRC) writes elsewhere
+OUT = os.environ.get("VERIF_OUT_DIR") or (ROOT if SRC == "/repo/src" else tempfile.mkdtemp(prefix="verif_scratch_out_"))
+os.environ["VERIF_OUT_DIR"] = OUT
 
 
 def sh(cmd, timeout=None, env=None, cwd=None):
@@ -125,7 +128,7 @@ def main():
     known_all = json.load(open(os.path.join(ROOT, "known_findings.json")))
     known = [k for k in known_all if k.get("property") == pid]
     known_open = [k for k in known if k.get("status") == "open"]
-    os.makedirs(os.path.join(ROOT, "evidence"), exist_ok=True); os.makedirs(os.path.join(ROOT, "replays"), exist_ok=True)
+    os.makedirs(os.path.join(OUT, "evidence"), exist_ok=True); os.makedirs(os.path.join(OUT, "replays"), exist_ok=True)
     scratch = tempfile.mkdtemp(prefix=f"verif_{pid}_")
     lines = []; code = 0
     try:
@@ -271,7 +274,7 @@ def main():
                "known_finding_obligations": [{"obligation": r["name"], "path": r["path"], "finding": r["known_finding"], "counted_as": "restricted form proved (finding's predicate excluded)" if r in kf_restricted else "not counted: the obligation is the finding"} for r in kf_restricted + kf_whole]}
         ev = {"property_id": pid, "tier": tier, "seed": seed, "level": level, "coverage": cov,
               "assumptions": P.get("assumptions", []), "wall_s": round(time.time() - t0, 2), "violations": len(violations) + len(hviol) + len(meta_fail)}
-        json.dump(ev, open(os.path.join(ROOT, "evidence", f"{pid}.json"), "w"), indent=1)
+        json.dump(ev, open(os.path.join(OUT, "evidence", f"{pid}.json"), "w"), indent=1)
         if a.v:
             for r in obligations + canaries:
                 print("  ", r["unit"].split(".")[-1][:28], r["path"], ".".join(r["name"].split(".")[-3:]), r["status"], r["backend"], r["secs"], r.get("detail", "")[:60], r.get("known_finding") or "")
